@@ -106,11 +106,19 @@ def checksig_plumbing(sig: Bytes, pubkey: Bytes, script: Bytes(cls=CScript), txT
 from pyvc import replay as _replay
 from contracts.c13 import _secret, _bj
 
-HASHTYPES = [1, 2, 3, 0x81, 0x82, 0x83, 0, 4, 0x1f, 0x40, 0x84, 0xff]
+HASHTYPES = [1, 2, 3, 0x81, 0x82, 0x83, 0, 4, 0x1f, 0x40, 0x84, 0xff, 0x22, 0x23, 0x42, 0x43, 0x62, 0xa2, 0xa3, 0xe3, 0x21]
 
 
 def _keys(rng, n):
-    return [CKey(_secret(rng), rng.random() < 0.7) for _ in range(n)]
+    """n keys with pairwise different curve points (the small-secret catalogue repeats values)"""
+    out, seen = [], set()
+    while len(out) < n:
+        k = CKey(_secret(rng), rng.random() < 0.7)
+        pt = ec.decode_point(k.pub)
+        if pt not in seen:
+            seen.add(pt)
+            out.append(k)
+    return out
 
 
 def _base_tx(rng):
@@ -241,6 +249,18 @@ def _gen_edited(rng):
             tx.vin[i].scriptSig = CScript([sig])
             return {'__build__': 'c05', 'raw': _bj(CTransaction.from_tx(tx).serialize()), 'i': i, 'ssig': _bj(CScript([sig])),
                     'spk': _bj(spk), 'tmpl': tmpl, 'edit': 'other key', 'expect_ok': False}
+    if tmpl in ('multisig', 'p2sh_multisig') and len(used) >= 2 and rng.random() < 0.3:
+        # one key's signature repeated in place of the others: m distinct keys are required
+        from bitcoin.core.script import CScriptOp
+        items = list(ssig)
+        first_sig = 1
+        last_sig = len(used)
+        rep = items[rng.randint(first_sig + 1, last_sig)] if rng.random() < 0.5 else items[first_sig]
+        new_items = [OP_0] + [rep] * len(used) + items[1 + len(used):]
+        ssig2 = CScript(new_items)
+        tx.vin[i].scriptSig = ssig2
+        return {'__build__': 'c05', 'raw': _bj(CTransaction.from_tx(tx).serialize()), 'i': i, 'ssig': _bj(ssig2), 'spk': _bj(spk),
+                'tmpl': tmpl, 'edit': 'repeated signature', 'expect_ok': False}
     before = [ref_legacy_sighash(s, tx, i, t)[0] for (s, t) in used]
     edit = rng.choice(EDITS)
     j = _apply_edit(rng, tx, i, edit)
